@@ -1,4 +1,4 @@
 SPECIFICATION Spec
-CONSTANTS MaxN <- MaxNC  Variants <- VariantsC  PosMode <- PosModeC
+CONSTANTS Lengths <- LengthsC  Variants <- VariantsC  PosMode <- PosModeC
 INVARIANTS ChunksPartition PredicateOnlyInRange Terminates FindIfIsFirst
 CHECK_DEADLOCK FALSE
